@@ -108,7 +108,9 @@ def decide(pid, tier, parts, level, meta):
             if key in seen:
                 continue
             seen.add(key)
-            slug = re.sub(r'[^A-Za-z0-9]+', '_', '%s_%s' % (f.get('function', ''), f.get('obligation', '')))[:80].strip('_')
+            import hashlib
+            h = hashlib.sha1(('%s|%s' % (f.get('function'), f.get('obligation'))).encode()).hexdigest()[:8]
+            slug = re.sub(r'[^A-Za-z0-9]+', '_', '%s_%s' % (f.get('function', ''), f.get('class') or f.get('obligation', '')))[:60].strip('_') + '_' + h
             path = os.path.join(VERIF, 'replay', '%s-%s.json' % (pid, slug))
             with open(path, 'w') as fh:
                 json.dump({'property': pid, 'failed_obligation': f.get('obligation'), 'function': f.get('function'),
